@@ -433,6 +433,9 @@ StepResult(g, e) ==
                                    /\ (ExpAction(c, i) = "any" \/ e.apps[i].action = ExpAction(c, i)))
                   ELSE {})
           \cup (IF ~e.ok /\ ~okc THEN Chk("C04", "result-error-class", e.err \in ExpErr(g, c)) ELSE {})
+          \* whether a reboot is pending after a clean install is the policy's call: it must have been asked
+          \cup Chk("C04", "reboot-pending-not-determined",
+                   ~(okc /\ c.decision = "ok" /\ c.installCalled /\ ~HasFailed(c)) \/ c.needed # "none")
       vs6 == Chk("C06", "response-time-count", c.jumped \/ c.nRespTime = Len(c.ucs) + (IF NoWire(c) THEN 1 ELSE 0))
           \cup Chk("C06", "requests-per-check", c.rpcSeen /\ c.rpcCount = Len(c.ucs) + (IF NoWire(c) THEN 1 ELSE 0)
                                                 /\ (c.rpcOk <=> (~NoWire(c) /\ LastUc(c).ok)))
@@ -695,7 +698,9 @@ ExpTiming(e) ==
   LET a == e.ans IN
   [time |-> [w |-> IF a.kind \in {"wall", "both"} THEN Some([s |-> e.tw + a.dt, ns |-> 123456789]) ELSE None,
              m |-> IF a.kind \in {"mono", "both"} THEN Some([s |-> e.tm + a.dt, ns |-> 0]) ELSE None],
-   minwait |-> IF IsSome(a.minwait) THEN Some([s |-> a.minwait[1], ns |-> 0]) ELSE None]
+   minwait |-> IF Has(a, "mwms") /\ IsSome(a.mwms)
+                 THEN Some([s |-> a.mwms[1] \div 1000, ns |-> (a.mwms[1] % 1000) * 1000000])
+               ELSE IF IsSome(a.minwait) THEN Some([s |-> a.minwait[1], ns |-> 0]) ELSE None]
 
 StepPolNext(g, e) ==
   LET g1 == [ObservePoll(g, e.ps.poll, "C07") EXCEPT !.w = [WaitInit EXCEPT !.ph = "wantSched", !.exp = ExpTiming(e)]]
